@@ -1,6 +1,5 @@
-// FINDING (completeness): well-typed, but rejected with T-002 "Cons is undefined": the instance List[i64]
-// only arises from the instantiated destructor signature of Gen[i64], which create_instance never checks.
-// With `hd` declared before `g` (p31_codata_returning_data.sc) the same program is accepted.
+// REGRESSION (completeness; FORMERLY REJECTED with T-002 "Cons is undefined", accepted since the repair of
+// New::check): the instance List[i64] only arises from the instantiated destructor signature of Gen[i64].
 data List[A] { Nil, Cons(x: A, xs: List[A]) }
 codata Gen[A] { next(seed: i64): List[A] }
 def g(): Gen[i64] { new { next(seed) => Cons(seed, Cons(seed + 1, Nil)) } }
